@@ -114,3 +114,33 @@ package drpcpool
 //@   requires val != nil && p != nil && ent != nil
 //@   modifies *
 //@   check [C15.callback] eventCount("invoke:Close") == 1 && eventCount("call:(*Pool).removeEntry") == 1 && eventAfterLast("invoke:Close", "call:(*Pool).removeEntry")
+
+// ---- the intrusive lists, at pointer level, for each of the two link fields (node = globalList /
+// ---- localList): what removeEntry and appendEntry do to head, tail, count and the neighbours' links.
+// (Well-formedness of a whole list — count == number of linked entries — is still not proved; these
+// are the per-operation pointer updates that any such proof, and every caller, relies on.)
+
+//@ func (*list).removeEntry
+//@   inline
+//@   props C15
+//@   instantiate node (*entry).globalList
+//@   instantiate node (*entry).localList
+//@   requires l != nil && ent != nil && node(ent).next != ent && node(ent).prev != ent && l.count > -4611686018427387904
+//@   modifies *
+//@   ensures [head]  l.head == ite(old(l.head) == ent, old(node(ent).next), old(l.head))
+//@   ensures [tail]  l.tail == ite(old(l.tail) == ent, old(node(ent).prev), old(l.tail))
+//@   ensures [count] l.count == old(l.count) - 1
+//@   ensures [C15.successor-relinked]   old(node(ent).next) != nil ==> node(old(node(ent).next)).prev == old(node(ent).prev)
+//@   ensures [C15.predecessor-relinked] old(node(ent).prev) != nil ==> node(old(node(ent).prev)).next == old(node(ent).next)
+
+//@ func (*list).appendEntry
+//@   inline
+//@   props C15
+//@   instantiate node (*entry).globalList
+//@   instantiate node (*entry).localList
+//@   requires l != nil && ent != nil && l.tail != ent && l.count < 4611686018427387904
+//@   modifies *
+//@   ensures [head]  l.head == ite(old(l.head) == nil, ent, old(l.head))
+//@   ensures [tail]  l.tail == ent
+//@   ensures [count] l.count == old(l.count) + 1
+//@   ensures [C15.linked-after-tail] old(l.tail) != nil ==> node(old(l.tail)).next == ent && node(ent).prev == old(l.tail)
